@@ -3,7 +3,7 @@
    arguments and encoding of results is done here, inside Coq, so that the
    OCaml driver contains no logic and the same cases can be re-evaluated with
    vm_compute in the kernel. *)
-From PSA Require Import model.Bytes model.Checksum model.Layer spec.SpecCodec.
+From PSA Require Import model.Bytes model.Checksum model.Layer model.Dhcp spec.SpecCodec.
 Open Scope N_scope.
 
 Definition arg (args : list (list N)) (i : nat) : list N := nth i args [].
@@ -34,5 +34,39 @@ Definition dispatch_c13 (tag : N) (a : list (list N)) : list (list N) :=
   | _ => [[99]]
   end.
 
+(* ---- C12: DHCP codec ---- *)
+Fixpoint enc_dopts (os : list dhcp_opt) : list (list N) :=
+  match os with [] => [] | (c, d) :: r => [c] :: d :: enc_dopts r end.
+Fixpoint dec_dopts (l : list (list N)) : list dhcp_opt :=
+  match l with c :: d :: r => (nth 0 c 0, d) :: dec_dopts r | _ => [] end.
+
+Definition enc_dhcp (m : dhcp_msg) : list (list N) :=
+  [d_op m; d_htype m; d_hops m; d_xid m; d_secs m; d_flags m; d_ciaddr m; d_yiaddr m; d_siaddr m; d_giaddr m; d_cookie m]
+  :: d_chaddr m :: d_sname m :: d_file m :: enc_dopts (d_options m).
+
+(* args: fixed fields, chaddr, sname, file, then options as (code, data) pairs *)
+Definition dec_dhcp (a : list (list N)) : dhcp_msg :=
+  {| d_op := argn a 0 0; d_htype := argn a 0 1; d_hops := argn a 0 2; d_xid := argn a 0 3; d_secs := argn a 0 4;
+     d_flags := argn a 0 5; d_ciaddr := argn a 0 6; d_yiaddr := argn a 0 7; d_siaddr := argn a 0 8; d_giaddr := argn a 0 9;
+     d_cookie := argn a 0 10; d_chaddr := arg a 1; d_sname := arg a 2; d_file := arg a 3;
+     d_options := dec_dopts (skipn 4 a) |}.
+
+Definition enc_optn (o : option N) : list N := match o with Some x => [x] | None => [] end.
+Definition enc_decoded (d : decoded_options) : list (list N) :=
+  [[o_msgtype d; o_maxsize d; o_mtu d; o_lease d; o_renew d; o_rebind d];
+   enc_optn (o_reqip d); enc_optn (o_sid d); enc_optn (o_bcast d);
+   match o_mask d with Some m => m | None => [] end;
+   o_routers d; o_dns d; o_domain d; o_cid d; o_message d; o_params d].
+
+Definition dispatch_c12 (tag : N) (a : list (list N)) : list (list N) :=
+  match tag with
+  | 1201 => enc_res (dhcp_decode (arg a 0)) enc_dhcp
+  | 1202 => [dhcp_assemble (dec_dhcp a)]
+  | 1203 => enc_decoded (decode_options (dec_dopts a))
+  | _ => [[99]]
+  end.
+
 Definition dispatch (tag : N) (a : list (list N)) : list (list N) :=
-  if (1300 <=? tag) && (tag <? 1400) then dispatch_c13 tag a else [[99]].
+  if (1300 <=? tag) && (tag <? 1400) then dispatch_c13 tag a
+  else if (1200 <=? tag) && (tag <? 1300) then dispatch_c12 tag a
+  else [[99]].
